@@ -57,12 +57,12 @@ def _damage_set(f):
     for _ in range(n):
         k = f.choice(["bin_rep", "bin_rep", "bin_rep_field", "bin_rep_field", "bin_cut", "bin_del", "bin_ins",
                       "bin_dup", "txt_flip", "txt_flip", "txt_set", "txt_set", "txt_cut", "line_lost",
-                      "line_dup", "line_swap", "nul_tail", "stale_tail", "empty", "hdr_only", "txt_del"])
+                      "line_dup", "line_swap", "nul_tail", "stale_tail", "empty", "hdr_only", "txt_del", "line_kind"])
         if k == "bin_rep":
             out.append([k, f.random(), f.choice(CLASSES)])
         elif k == "bin_rep_field":
             out.append([k, f.randrange(100000), f.choice(CLASSES + ["00", "00", "FF"])])
-        elif k in ("bin_cut", "txt_cut", "line_lost", "line_dup", "nul_tail"):
+        elif k in ("bin_cut", "txt_cut", "line_lost", "line_dup", "nul_tail", "line_kind"):
             out.append([k, f.random()])
         elif k in ("bin_del", "bin_dup", "txt_del"):
             out.append([k, f.random(), f.choice([1, 1, 2, 4, 16, 17])])
@@ -185,6 +185,23 @@ def apply_damage(orig, dset, crlf):
                 else:
                     j = _pos(d[2], len(lines))
                     lines[i], lines[j] = lines[j], lines[i]
+                data = b"".join(lines)
+        elif k == "line_kind":
+            # a near-valid BF2 text: one header / instruction line written in the other line syntax
+            # ("#>NAME K=V" <-> "##NAME: text"), name kept
+            lines = data.splitlines(keepends=True)
+            cand = [i for i, ln in enumerate(lines) if ln[:2] in (b"#>", b"##")]
+            if cand:
+                i = cand[_pos(d[1], len(cand))]
+                ln = lines[i]
+                eol = ln[len(ln.rstrip(b"\r\n")):]
+                body = ln[2:].rstrip(b"\r\n")
+                if ln[:2] == b"#>":
+                    name, _, rest = body.partition(b" ")
+                    lines[i] = b"##" + name + b": " + rest + eol
+                else:
+                    name, _, rest = body.partition(b":")
+                    lines[i] = b"#>" + name + b" V=" + rest.strip() + eol
                 data = b"".join(lines)
         elif k == "nul_tail":
             p = _pos(d[1], len(data))
@@ -391,6 +408,8 @@ def run(case):
                 out.fired[d[0]] += 1
                 if d[0].startswith("line_"):
                     out.probes["line-fault"] += 1
+                if d[0] == "line_kind" and kind == "bf2":
+                    out.probes["bf2-line-in-other-syntax"] += 1
             fs.restart()
             fs.files[name] = damaged
             narrow = dict(case, damage=[dset], modes=[[mode, check, via]])
@@ -456,6 +475,11 @@ def run(case):
                 out.probes["parsed-ok-after-damage"] += 1
                 bf3 = val.bf3file if kind == "bec2" else val
                 for k, v in list(bf3.comments.items()):
+                    if not isinstance(v, str):
+                        # the identifier parser is specified for text; a comment value that is not text
+                        # (bf2_import keeps the parameter dict of "#>Bf3Update K=V") is not an input of it
+                        out.probes["non-text-comment-value"] += 1
+                        continue
                     nev += 1
                     out.probes["configid-downstream"] += 1
                     r2, _ = guarded(out, "ConfigId.create_from_str",
